@@ -212,12 +212,38 @@ def reader_binding(ctx, mod, fns):
 
 RULES = {
     "C16.validate-first": "emission/parse statements are dominated by the branch on which _validate_scsv_schema accepted the schema (the other branch raises SCSVError)",
-    "C16.length-check": "in save_scsv the unequal-column-length rejection dominates opening the output file",
+    "C16.length-check": "save_scsv interpreted on columns of unequal length raises SCSVError before the output file is opened",
     "C16.errors": "ValueError from per-cell parsing and from the strict zip is converted to SCSVError; the partially written file is unlinked on that path",
     "C16.siblings": "writer and reader use the same cell parser, keys and defaults; terse type names resolve into SCSV_TYPEMAP; header keys written ⊇ keys read",
     "C16.substitution": "on save the missing marker replaces a cell only under equality with the typed fill value (or both NaN)",
     "C16.yaml-emission": "schema values interpolated into the YAML header are validated identifiers/table members or pass through a YAML quoting function",
 }
+
+
+def length_check(ctx, mod, fn):
+    """save_scsv interpreted on columns of unequal length: SCSVError is raised and the output file is never opened."""
+    from ..values import Native
+    from ..interp import RaiseSig
+
+    class Opened(Exception):
+        pass
+    schema = {"delimiter": ",", "missing": "-", "fields": [{"name": "a", "type": "integer", "fill": 0}, {"name": "b", "type": "integer", "fill": 0},
+                                                          {"name": "c", "type": "integer", "fill": 0}]}
+    for name, data in (("second column longer", [[1, 2], [1, 2, 3], [1, 2]]), ("last column shorter", [[1, 2, 3], [1, 2, 3], [1, 2]]),
+                       ("first column shorter", [[1], [1, 2], [1, 2]]), ("an empty column", [[1, 2], [], [1, 2]])):
+        def opened(I_, *a, **k):
+            raise Opened()
+        I = Interp(ctx.program, externals={"builtins.open": Native("open", opened)},
+                   stubs={"pydrex.io.resolve_path": Native("resolve_path", lambda I_, p, *a: p)})
+        try:
+            I.call(I.resolve("pydrex.io.save_scsv"), ("out.scsv", schema, data))
+            why = "accepted"
+        except Opened:
+            why = "the output file is opened (and truncated) before the column lengths are compared"
+        except RaiseSig as r:
+            why = "" if r.exc.typename == "SCSVError" else f"raises {r.exc.typename}, not SCSVError"
+        ctx.ob("C16.length-check", f"save_scsv: {name}", not why, why, L(mod, fn, ctx))
+    ctx.floor("C16.length-check", 4)
 
 
 def L(mod, node, ctx):
@@ -287,12 +313,7 @@ def validate_before(ctx, mod, fns):
     rows = [n for n, s in cfg.stmt.items() if isinstance(s, ast.Expr) and isinstance(s.value, ast.Call) and isinstance(s.value.func, ast.Attribute) and s.value.func.attr == "writerow"]
     ctx.ob("C16.validate-first", "save_scsv:header (and its validation) dominates every row write", bool(hdr) and len(rows) >= 2 and
            all(any(cfg.dominates(h, r, idom) for h in hdr) for r in rows), f"{len(hdr)} header call(s), {len(rows)} row write(s)", L(mod, fn, ctx))
-    opens = [n for n, s in cfg.stmt.items() if isinstance(s, ast.With) and any(is_call_to(i.context_expr, "open") for i in s.items)]
-    lencheck = [n for n, s in cfg.stmt.items() if isinstance(s, ast.If) and any(is_call_to(c, "len") for c in ast.walk(s.test)) and raises_in(s.body, "SCSVError")]
-    loops = [n for n, s in cfg.stmt.items() if isinstance(s, ast.For) and any(cfg.stmt[c] in s.body for c in lencheck)]
-    ok = bool(opens) and bool(lencheck) and all(any(cfg.dominates(l, o, idom) for l in loops) for o in opens) and \
-        all(not cfg.reachable_without(o, l, ()) for o in opens for l in lencheck)
-    ctx.ob("C16.length-check", "save_scsv", ok, f"{len(lencheck)} length check(s) inside {len(loops)} loop(s) before {len(opens)} open()", L(mod, fn, ctx))
+    length_check(ctx, mod, fn)
     ctx.floor("C16.validate-first", 10)
 
 
